@@ -893,6 +893,37 @@ def rt_shapes_grid(first_only=False, count=None, only=None):
                 pass
         if first_only and fails:
             return fails
+    # Partial: an index set that does not fit the shape (out of range in either direction, repeated positions) must be rejected --
+    # jax indexing clamps / merges such indices silently, the accepted object then reports a log-determinant for entries it never changes
+    if not only or only == "Partial":
+        bad_idx = [("integer 5 for shape (3,)", 5, (), (3,)), ("integer -4 for shape (3,)", -4, (), (3,)), ("int array [1, 7] for shape (3,)", jnp.array([1, 7]), (2,), (3,)),
+                   ("int array [1, 1] (repeated) for shape (3,)", jnp.array([1, 1]), (2,), (3,)), ("int array [0, -3] (same element twice) for shape (3,)", jnp.array([0, -3]), (2,), (3,)),
+                   ("tuple (0, 4) for shape (2, 3)", (0, 4), (), (2, 3)), ("bool mask of length 4 for shape (3,)", jnp.array([True, False, True, True]), (3,), (3,))]
+        for label, idx, sub, shp in bad_idx:
+            n += 1
+            try:
+                pb = B.Partial(B.Exp(sub), idx, shp)
+            except Exception:  # noqa: BLE001
+                continue
+            xx = jnp.asarray(np.random.default_rng(2).normal(size=shp))
+            try:
+                yy, ld = pb.transform_and_log_det(xx)
+                J = np.asarray(jax.jacobian(lambda v: pb.transform(v).ravel())(xx)).reshape(xx.size, xx.size)
+                true_ld = float(np.linalg.slogdet(J)[1])
+                detail = f"; the accepted object reports log-det {float(ld):.6g} where autodiff gives {true_ld:.6g}"
+            except Exception as ex:  # noqa: BLE001
+                detail = f"; calling it then raises {type(ex).__name__}"
+            fails.append(dict(what=f"Partial with an index that does not fit ({label}) was accepted{detail}", case=dict(cls="Partial", idx=label)))
+        good_idx = [("integer -3 for shape (3,)", -3, (), (3,)), ("int array [2, 0]", jnp.array([2, 0]), (2,), (3,)), ("tuple (1, slice)", (1, slice(0, 2)), (2,), (2, 3)), ("0-d int array", jnp.array(2), (), (3,)),
+                    ("bool mask", jnp.array([True, False, True]), (2,), (3,)), ("empty slice", slice(0, 0), (0,), (3,))]
+        for label, idx, sub, shp in good_idx:
+            n += 1
+            try:
+                B.Partial(B.Exp(sub), idx, shp)
+            except Exception as ex:  # noqa: BLE001
+                fails.append(dict(what=f"Partial with a fitting index ({label}) was rejected: {type(ex).__name__}: {str(ex)[:100]}", case=dict(cls="Partial", idx=label)))
+        if first_only and fails:
+            return fails
     # Chain: three children (the LAST one incompatible), and declared cond_shape with conditional children in any position
     if not only or only == "Chain":
         for s0, s2 in (((2,), (3,)), ((2, 3), (2, 4)), ((2,), (2, 1)), ((), (1,))):
